@@ -70,10 +70,11 @@ def run_case(chk, rng, case, stats, coq_cases, metas, compiler):
         argv = [{"name": "-n", "path": "-p", "directory": "-d"}[case["mode"]]]
         if case.get("recursive"):
             argv.append("-r")
+        # '--opt=value': a mutated expression may start with '-' and must not be read as an option by argparse
         if case.get("filter") is not None:
-            argv += ["-ft", case["filter"]]
+            argv += ["--filter-template=" + case["filter"]]
         if case.get("sort") is not None:
-            argv += ["-s", case["sort"]]
+            argv += ["--sort=" + case["sort"]]
         argv += ["--", case["template"], os.path.join(root, "in")]
         t0 = time.time()
         res = run_cli(argv, root, root=root, snapshots=False)
